@@ -1,6 +1,7 @@
 package main
 
 import (
+	"fmt"
 	"go/token"
 	"go/types"
 	"sort"
@@ -481,6 +482,71 @@ func c11(r *Report, s *Sem) {
 		}
 		_ = rawRes
 		_ = enc
+	}
+
+	// ---- R5: presence is decided by a plain nil test
+	R5 := r.Rule("R5", "a resource/content is dropped only when it is nil: in the reply builder and in the command and message encoders every path that skips storing the document crosses the edge 'document == nil' (or returns an error) — a broader emptiness predicate would silently drop valid documents such as an empty text", 3)
+	skipOnlyWhenNil := func(fn *ssa.Function, doc func(v ssa.Value) bool, isStore func(in ssa.Instruction) bool, what string) {
+		if fn == nil {
+			r.Undecided(R5, "anchor-unresolved:"+what, "-", "not found")
+			return
+		}
+		bad := 0
+		walkFrom(fn, nil, walkOpts{
+			barrier: isStore,
+			cutEdge: func(from *ssa.BasicBlock, k int) bool {
+				ifi := ifOf(from)
+				if ifi == nil {
+					return false
+				}
+				cd := condOn(ifi, k == 0)
+				if cd.Op != token.EQL {
+					return false
+				}
+				x, y := cd.X, cd.Y
+				if isNilConst(x) {
+					x, y = y, x
+				}
+				return isNilConst(y) && doc(x)
+			},
+			onExit: func(e ssa.Instruction, pred *ssa.BasicBlock) {
+				ret := e.(*ssa.Return)
+				n := len(ret.Results)
+				if n > 0 && isErrorType(ret.Results[n-1].Type()) && !retMayBeNilVia(ret, pred) {
+					return // error exit
+				}
+				bad++
+			}})
+		r.Check(R5, "func "+fnName(fn)+" / "+what+" dropped only when nil", p.pos(fn.Pos()), bad == 0, fmt.Sprintf("%d success path(s) skip the document although it is not known to be nil", bad))
+	}
+	if b := p.Method("RequestCommand", "SuccessResponseWithResource"); b != nil {
+		prm := b.Params[1]
+		setRes := p.Method("Command", "SetResource")
+		resF := p.Field("Command", "Resource")
+		skipOnlyWhenNil(b, func(v ssa.Value) bool { return stripConv(v) == ssa.Value(prm) }, func(in ssa.Instruction) bool {
+			if st, ok := in.(*ssa.Store); ok {
+				if fa, ok := st.Addr.(*ssa.FieldAddr); ok && structField(fa.X.Type(), fa.Field) == resF {
+					return true
+				}
+			}
+			if c, ok := in.(ssa.CallInstruction); ok && staticCallee(c) == setRes && setRes != nil {
+				return true
+			}
+			return false
+		}, "resource")
+	}
+	for _, enc := range []struct{ typ, field, wire string }{{"Command", "Resource", "Resource"}, {"Message", "Content", "Content"}} {
+		fn := p.Method(enc.typ, "toRawEnvelope")
+		docF := p.Field(enc.typ, enc.field)
+		wireF := p.Field("rawEnvelope", enc.wire)
+		skipOnlyWhenNil(fn, func(v ssa.Value) bool { return pathOf(v).Last() == docF }, func(in ssa.Instruction) bool {
+			if st, ok := in.(*ssa.Store); ok {
+				if fa, ok := st.Addr.(*ssa.FieldAddr); ok && structField(fa.X.Type(), fa.Field) == wireF {
+					return true
+				}
+			}
+			return false
+		}, strings.ToLower(enc.field))
 	}
 
 	// ---- R4
